@@ -96,16 +96,17 @@ def run_size(case, rt):
     vcheck(len(texts) == len(items) == len(parsed), "shim-protocol", "result count")
     for (s, ib), text, back in zip(items, texts, parsed):
         what = "format_size(%d, %s) = %r" % (s, bool(ib), text)
-        if s < 1024:
-            vcheck(text == "%d bytes" % s and back == s, "size-bytes-form", what)
+        if text in ("%d bytes" % s, "%d byte" % s):
+            vcheck(back == s, "size-bytes-form", what)
             continue
-        k = min(6, (s.bit_length() - 1) // 10)
-        unit = 1 << (10 * k)
-        m = re.match(r"^(?:(\d+) bytes \()?(\d{1,4})\.(\d\d) ([KMGTPE])B\)?$", text)
+        vcheck(s >= 512, "size-bytes-form", what)
+        m = re.match(r"^(?:(\d+) bytes? \()?(\d{1,4})\.(\d\d) ([KMGTPE])B\)?$", text)
         vcheck(m is not None and (m.group(1) is not None) == bool(ib) and (not ib or (int(m.group(1)) == s and text.endswith(")"))), "size-form", what)
-        vcheck(m.group(4) == UNITS[k], "size-unit", what)
+        # the unit is taken as printed (which one is chosen is the formatter's business); the value clause is applied with it
+        k = UNITS.index(m.group(4))
+        unit = 1 << (10 * k)
         m100 = int(m.group(2)) * 100 + int(m.group(3))
-        vcheck(100 <= m100 <= 102400, "size-mantissa-range", what)
+        vcheck(m100 <= 102400, "size-mantissa-range", what)
         # |m*U - s| <= 0.005 U + 2^-23 s
         vcheck(abs(Fraction(m100 * unit, 100) - s) <= Fraction(unit, 200) + Fraction(s, 1 << 23), "size-mantissa-value", what)
         if ib:
